@@ -32,6 +32,24 @@ func c31Files(dir string) []string {
 	return out
 }
 
+// c31Name names a segment the way the recorder's documentation defines the tokens (the harness' own encoder, so that
+// the naming convention is not taken from the code under test): local wall-clock fields of t, %z = Z or +-hhmm.
+func c31Name(format, path string, t time.Time) string {
+	_, off := t.Zone()
+	z := "Z"
+	if off != 0 {
+		sign := "+"
+		if off < 0 {
+			sign, off = "-", -off
+		}
+		z = fmt.Sprintf("%s%02d%02d", sign, off/3600, (off/60)%60)
+	}
+	rp := strings.NewReplacer("%path", path, "%Y", fmt.Sprintf("%d", t.Year()), "%m", fmt.Sprintf("%02d", int(t.Month())), "%d", fmt.Sprintf("%02d", t.Day()),
+		"%H", fmt.Sprintf("%02d", t.Hour()), "%M", fmt.Sprintf("%02d", t.Minute()), "%S", fmt.Sprintf("%02d", t.Second()), "%f", fmt.Sprintf("%06d", t.Nanosecond()/1000),
+		"%z", z, "%s", fmt.Sprintf("%d", t.Unix()))
+	return rp.Replace(format)
+}
+
 func TestVerifC31(t *testing.T) {
 	r := vmon.Begin(t, "C31", "exploration")
 	rng := r.Rand("c31")
@@ -41,13 +59,17 @@ func TestVerifC31(t *testing.T) {
 	}
 	savedLocal := time.Local
 	defer func() { time.Local = savedLocal }()
-	zones := []string{"UTC", "Asia/Kolkata", "America/St_Johns", "Pacific/Chatham", "Europe/Rome", "America/Los_Angeles", "Asia/Kathmandu"}
-	fixed := map[string]int{"UTC": 0, "Asia/Kolkata": 19800, "America/St_Johns": -12600, "Pacific/Chatham": 45900, "Europe/Rome": 3600, "America/Los_Angeles": -28800, "Asia/Kathmandu": 20700}
+	zones := []string{"UTC", "Asia/Kolkata", "America/St_Johns", "Europe/London", "Pacific/Chatham", "Europe/Rome", "America/Los_Angeles", "Asia/Kathmandu"}
+	fixed := map[string]int{"UTC": 0, "Europe/London": 0, "Asia/Kolkata": 19800, "America/St_Johns": -12600, "Pacific/Chatham": 45900, "Europe/Rome": 3600, "America/Los_Angeles": -28800, "Asia/Kathmandu": 20700}
 	nz := r.N(4, len(zones))
-	opsPerZone := r.N(60, 1500)
+	opsPerZone := r.N(40, 800)
 	hc := &http.Client{Timeout: 20 * time.Second}
-	for zi := 0; zi < nz; zi++ {
+	for zi2 := 0; zi2 < 2*nz; zi2++ {
+		zi := zi2 / 2
 		zn := zones[(zi+int(r.Seed())-1)%len(zones)]
+		if zi == 0 {
+			zn = "Europe/London" // always: offset zero in winter without being the UTC location
+		}
 		loc, err := time.LoadLocation(zn)
 		if err != nil {
 			loc = time.FixedZone(zn, fixed[zn])
@@ -55,7 +77,11 @@ func TestVerifC31(t *testing.T) {
 		}
 		time.Local = loc // the server's time zone
 		dir := t.TempDir()
-		format := []string{"rec/%path/%Y-%m-%d_%H-%M-%S-%f", "rec/%path/%Y/%m/%d/%H-%M-%S-%f", "rec/%Y-%m-%d/%path_%H-%M-%S-%f"}[rng.IntN(3)]
+		layouts := []string{"rec/%path/%Y-%m-%d_%H-%M-%S-%f", "rec/%path/%Y/%m/%d/%H-%M-%S-%f", "rec/%Y-%m-%d/%path_%H-%M-%S-%f", "rec/%path/%s-%f", "rec/%path/%Y-%m-%d_%H-%M-%S-%f_%z"}
+		format := layouts[rng.IntN(4)]
+		if zi2%2 == 1 {
+			format = layouts[4] // every zone is also run with the time zone token in the file names
+		}
 		cf := c07Load(t, dir, fmt.Sprintf("pathDefaults:\n  recordPath: %s\npaths:\n  cam:\n  cam2:\n", filepath.Join(dir, format)))
 		parent := &c04Parent{conf: cf}
 		sv := &c04Servers{}
@@ -68,13 +94,17 @@ func TestVerifC31(t *testing.T) {
 		pconf := cf.Paths["cam"]
 		// ---- segments, named the way the recorder names them (start instant in the server's zone)
 		instants := map[int64]string{} // unix micro -> file
-		day := time.Date(2024, time.Month(1+rng.IntN(12)), 1+rng.IntN(28), 0, 0, 0, 0, time.UTC)
+		// winter and summer (both daylight-saving states of the zone), alternating
+		day := time.Date(2024, time.Month([]int{1, 7}[(zi2+int(r.Seed()))%2]), 1+rng.IntN(28), 0, 0, 0, 0, time.UTC)
+		if zi2%2 == 1 && rng.IntN(2) == 0 {
+			day = time.Date(2024, time.Month([]int{1, 12, 2}[rng.IntN(3)]), 1+rng.IntN(28), 0, 0, 0, 0, time.UTC)
+		}
 		mk := func(ti time.Time) {
 			ti = ti.Truncate(time.Microsecond)
 			if _, dup := instants[ti.UnixMicro()]; dup {
 				return
 			}
-			p := recordstore.Path{Start: ti.In(loc), Path: "cam"}.Encode(recordstore.PathAddExtension(pconf.RecordPath, pconf.RecordFormat))
+			p := c31Name(pconf.RecordPath, "cam", ti.In(loc)) + ".mp4"
 			os.MkdirAll(filepath.Dir(p), 0o755) //nolint:errcheck
 			os.WriteFile(p, []byte("x"), 0o644) //nolint:errcheck
 			instants[ti.UnixMicro()] = p
@@ -234,6 +264,6 @@ func TestVerifC31(t *testing.T) {
 		}
 		a.Close()
 	}
-	r.Finish("the real API (recordings get + deletesegment over HTTP) with the process time zone set to UTC, Asia/Kolkata, America/St_Johns, Pacific/Chatham, Europe/Rome, America/Los_Angeles, Asia/Kathmandu (quick: four of them by seed); segments are files named the way the recorder names them (start instant in the server's zone, microseconds) in three record path layouts, including pairs whose instants differ exactly by the zone offset; deletions name an instant (4 of 5 existing, else a near miss) written with a random UTC offset (Z, the server's, +05:30, -03:30, +12:45, arbitrary). Oracle: directory before / after: exactly the segment that starts at that instant is removed and 200 answered, or nothing is removed and an error answered; the API listing and recordstore.FindSegments (playback's view) report exactly the instants the files were named with, also after deletions. non-trivial = distinct (zone, written instant)",
+	r.Finish("the real API (recordings get + deletesegment over HTTP) with the process time zone set to UTC, Asia/Kolkata, America/St_Johns, Europe/London, Pacific/Chatham, Europe/Rome, America/Los_Angeles, Asia/Kathmandu (quick: four of them by seed); segments are files named the way the recorder names them (start instant in the server's zone, microseconds) in five record path layouts (incl. one with the %z token and one with unix time), named by the harness' own encoder, including pairs whose instants differ exactly by the zone offset; deletions name an instant (4 of 5 existing, else a near miss) written with a random UTC offset (Z, the server's, +05:30, -03:30, +12:45, arbitrary). Oracle: directory before / after: exactly the segment that starts at that instant is removed and 200 answered, or nothing is removed and an error answered; the API listing and recordstore.FindSegments (playback's view) report exactly the instants the files were named with, also after deletions. non-trivial = distinct (zone, written instant)",
 		"the playback view is taken at recordstore.FindSegments, the function both playback endpoints start from (its HTTP layer is exercised by C29); segment files hold a placeholder (deletion does not read them)")
 }
